@@ -371,7 +371,11 @@ func (t *terminal) onCommand(f *ref.Frame) {
 		t.serial++
 		s := t.serial
 		t.mu.Unlock()
-		return ref.Spec{ID: respID, Version2019: t.v2019, VersionByte: 1, PhoneBCD: t.phone, Serial: s, Body: responseBody(respID, serialEcho, f.ID)}.Build()
+		body := responseBody(respID, serialEcho, f.ID)
+		if rule.RespTail != nil {
+			body = append([]byte{byte(serialEcho >> 8), byte(serialEcho)}, rule.RespTail...)
+		}
+		return ref.Spec{ID: respID, Version2019: t.v2019, VersionByte: 1, PhoneBCD: t.phone, Serial: s, Body: body}.Build()
 	}
 	switch rule.Behaviour {
 	case "answer":
